@@ -5,6 +5,32 @@ HEADER = '''import re
 from bisturi.packet import Packet
 from bisturi.field import Int, Data, Bits, Ref, Em, EOS
 from bisturi.descriptor import Auto, AutoLength
+from bisturi.field import Field
+
+
+class Hex(Field):
+    # a user-defined field as the documentation describes them: n bytes <-> their hexadecimal spelling
+    def __init__(self, n=3, default=None):
+        Field.__init__(self)
+        self.n = n
+        self.default = default if default is not None else '00' * n
+
+    def init(self, packet, defaults):
+        setattr(packet, self.field_name, defaults.get(self.field_name, self.default))
+
+    def pack(self, pkt, fragments, **k):
+        chunk = bytes.fromhex(getattr(pkt, self.field_name))
+        if len(chunk) != self.n:
+            raise ValueError('%d bytes expected' % self.n)
+        fragments.append(chunk)
+        return fragments
+
+    def unpack(self, pkt, raw, offset=0, **k):
+        chunk = raw[offset:offset + self.n]
+        if len(chunk) != self.n:
+            raise ValueError('%d bytes expected, %d left' % (self.n, len(chunk)))
+        setattr(pkt, self.field_name, chunk.hex())
+        return offset + self.n
 '''
 
 
